@@ -9,7 +9,7 @@ import math
 import struct
 
 __all__ = ["forall", "exists", "implies", "ite", "seq_eq_at", "unchanged", "is_nan", "is_finite", "f32_round",
-           "float_eq", "f32_bytes", "f64_bytes", "ghost", "fresh_int"]
+           "float_eq", "f32_bytes", "f64_bytes", "ghost", "fresh_int", "f32_of_bytes", "f64_of_bytes"]
 
 
 def forall(lo, hi, fn):
@@ -75,3 +75,12 @@ def ghost(name, default=None):
 
 def fresh_int(name="g"):
     raise NotImplementedError("fresh_int has no concrete meaning")
+
+
+def f32_of_bytes(data, pos):
+    """binary32 big-endian at data[pos:pos+4], widened to binary64."""
+    return struct.unpack(">f", bytes(data[pos:pos + 4]))[0]
+
+
+def f64_of_bytes(data, pos):
+    return struct.unpack(">d", bytes(data[pos:pos + 8]))[0]
